@@ -1,4 +1,4 @@
-import FiberModel.C12.Lemmas
+import FiberModel.C12.Cost
 /-
 C12 — property theorems (only). `s : Slice` is the reused `ctx.flashMessages` with ARBITRARY
 leftover elements and capacity; `s.len = 0` is the state in which every request finds it
@@ -109,6 +109,76 @@ theorem decode_alloc_linear (s : Slice) (cookie : Bytes) :
           | cons x xs => simp only; omega
 
 example : (parseAndClear Slice.empty [221, 255, 255, 255, 255]).alloc = 0 := by decide
+
+/-- `decode_copy_linear`: the bytes copied into fresh strings while decoding (every `key` / `value`
+    field read, repeated fields and the reads before a decode error included) add up to at most the
+    length of the cookie: each copy is a sub-slice of the cookie and the sub-slices are disjoint. -/
+theorem decode_copy_linear (cookie : Bytes) : copiedBytes cookie ≤ cookie.length := by
+  unfold copiedBytes
+  split
+  · exact Nat.zero_le _
+  · cases hh : readArrayHeader cookie with
+    | none => exact Nat.zero_le _
+    | some p =>
+      obtain ⟨n, body⟩ := p
+      simp only
+      split
+      · exact Nat.zero_le _
+      · have := slotsCopied_le n body
+        have := readArrayHeader_len hh
+        omega
+
+-- two messages, the second with a repeated `value` field that is cut short: 1 + 2 + 1 bytes were copied
+example : copiedBytes ([146] ++ encodeMsg ⟨b "k", b "vv", 65, false⟩ ++ [131, 163] ++ kKey ++ [161, 120, 165] ++ kValue ++ [162, 121]) = 4 := by decide
+example : copiedBytes (encode [⟨b "success", b "saved", 0, false⟩, ⟨b "name", b "tom", 0, true⟩]) = 19 := by decide
+
+/-- the cost function walks the cookie exactly as the decoder does: for every state of the slots
+    decoded into it succeeds / fails where `UnmarshalMsg` does and leaves the same rest -/
+theorem copied_follows_decoder (slots : List Msg) (bs : Bytes) :
+    (slotsCopied slots.length bs).2 = (unmarshalSlots slots bs).map (·.2) :=
+  slotsCopied_rest slots bs
+
+/-- `decode_memory_linear`: element array plus string copies — all the memory the decoder allocates
+    for a cookie — is at most 41 bytes per byte of cookie, for every state of the pooled slice. -/
+theorem decode_memory_linear (s : Slice) (cookie : Bytes) :
+    (parseAndClear s cookie).alloc + copiedBytes cookie ≤ (msgSize + 1) * cookie.length := by
+  have h1 := decode_alloc_linear s cookie
+  have h2 := decode_copy_linear cookie
+  rw [Nat.add_mul, Nat.one_mul]
+  omega
+
+example : (parseAndClear Slice.empty [220, 255, 255]).alloc + copiedBytes [220, 255, 255] = 0 := by decide
+
+/-- `decode_reads_linear`: the decoder makes at most `len(cookie) + 2` calls of msgp primitives
+    (`ReadArrayHeaderBytes` twice, `ReadMapHeaderBytes`, `ReadMapKeyZC`, `ReadStringBytes`,
+    `ReadUint8Bytes`, `ReadBoolBytes`, one `getSize` per object `Skip` visits): every successful call
+    consumes at least one byte of the cookie and a failing call is the last one. Each call does
+    constant work plus work proportional to the bytes it consumes, so the decoding loop is linear in
+    the cookie; what is NOT covered is `clear(old)`, proportional to the retained capacity
+    (`cap_bounded`: at most the longest cookie this context has seen). -/
+theorem decode_reads_linear (cookie : Bytes) : decodeReads cookie ≤ cookie.length + 2 := by
+  unfold decodeReads
+  split
+  · exact Nat.zero_le _
+  · cases hh : readArrayHeader cookie with
+    | none => simp only; omega
+    | some p =>
+      obtain ⟨n, body⟩ := p
+      have hb := readArrayHeader_len hh
+      simp only
+      split
+      · omega
+      · have := slotsReads_le n body
+        have := slack_le_one (slotsReads n body).2
+        omega
+
+-- a map that announces 2^32-1 entries and nested arrays as an unknown field's value
+example : decodeReads [145, 223, 255, 255, 255, 255, 161, 120, 147, 145, 144, 144, 192] = 10 := by decide
+
+/-- the call counter walks the cookie exactly as the decoder does -/
+theorem reads_follow_decoder (slots : List Msg) (bs : Bytes) :
+    (slotsReads slots.length bs).2 = (unmarshalSlots slots bs).map (·.2) :=
+  slotsReads_rest slots bs
 
 /-- the capacity retained in the pooled context never exceeds the largest cookie seen -/
 theorem cap_bounded (s : Slice) (cookie : Bytes) :
@@ -253,5 +323,122 @@ theorem no_cookie_no_messages (pool : Slice) (hp : pool.len = 0) :
 theorem reissue_overrides_expiry (pool : Slice) (carried : Bytes) (ms : List Msg) (hne : ms ≠ []) :
     (serve pool carried ms).2.2 = some (some (encode ms)) := by
   simp [serve, issue, hne]
+
+/-! ### The issuing side: chains of `With` / `WithInput()` calls
+
+`ops` is ANY interleaving of `With(key, value, level)` and `WithInput()` calls (any number of either,
+any keys — a flash key may equal an input name), every `WithInput()` call with its own iteration
+order of the bound map. `runOps` is the function the driver runs (`Driver/C12.lean modelMsgs`). -/
+
+/-- The `With` overwrite rule. What `Messages()` filters out of the attached messages is exactly
+    `expectedFlash`: one message per distinct key, in order of first use, with the value and level
+    of the LAST call with that key — wherever `WithInput()` was called and whatever it attached. -/
+theorem with_overwrite_rule (ops : List Op) :
+    (runOps ops).filter (!·.old) = expectedFlash (callsOf ops) := by
+  have := flashPart_foldl ops []
+  simp only [flashPart, List.filter_nil] at this
+  unfold runOps
+  rw [this]
+  exact runCalls_eq_expectedFlash (callsOf ops)
+
+example : (runOps [.flash (b "name") (b "1") 1, .input [(b "name", b "tom")], .flash (b "x") [] 0,
+    .flash (b "name") (b "2") 7]).filter (!·.old) = [⟨b "name", b "2", 7, false⟩, ⟨b "x", [], 0, false⟩] := by decide
+
+/-- What `OldInputs()` filters out: every `WithInput()` call appended one message per pair of the
+    map, in the order of that call; no `With` call touches them (not even one with the same key). -/
+theorem withInput_appends (ops : List Op) :
+    (runOps ops).filter (·.old) = (inputsOf ops).flatMap expectedOld := by
+  have := oldPart_foldl ops []
+  simp only [oldPart, List.filter_nil, List.nil_append] at this
+  unfold runOps
+  exact this
+
+/-- `script_meets_spec`: for every script — any interleaving, any keys (colliding or not), any
+    number of `WithInput()` calls, each ranging over the input map in any order — the attached
+    messages are, through the `Messages()` filter, exactly `expectedFlash` of the `With` calls and,
+    through the `OldInputs()` filter, a rearrangement of `expectedOld inputs` once per `WithInput()`
+    call. -/
+theorem script_meets_spec (ops : List Op) (inputs : List (Bytes × Bytes))
+    (hperm : ∀ o ∈ inputsOf ops, o.Perm inputs) :
+    (runOps ops).filter (!·.old) = expectedFlash (callsOf ops) ∧
+    ((runOps ops).filter (·.old)).Perm (expectedOldN (inputsOf ops).length inputs) := by
+  refine ⟨with_overwrite_rule ops, ?_⟩
+  rw [withInput_appends]
+  exact flatMap_expectedOld_perm inputs _ hperm
+
+-- WithInput() first, a With on the input's name, a second WithInput() in the other map order
+example : (runOps [.input [(b "id", b "1"), (b "q", b "x")], .flash (b "id") (b "v") 3,
+      .input [(b "q", b "x"), (b "id", b "1")]]).filter (·.old) =
+    [⟨b "id", b "1", 0, true⟩, ⟨b "q", b "x", 0, true⟩, ⟨b "q", b "x", 0, true⟩, ⟨b "id", b "1", 0, true⟩] := by decide
+
+/-- The same at the level of the public API: `Messages()` returns key/value/level of
+    `expectedFlash`, `OldInputs()` returns the pairs of the input map (as often as `WithInput()` was
+    called), in some order. -/
+theorem script_api (ops : List Op) (inputs : List (Bytes × Bytes))
+    (hperm : ∀ o ∈ inputsOf ops, o.Perm inputs) :
+    messagesOf (runOps ops) = (expectedFlash (callsOf ops)).map (fun m => (m.key, m.value, m.level)) ∧
+    (oldInputsOf (runOps ops)).Perm (List.replicate (inputsOf ops).length inputs).flatten := by
+  obtain ⟨h1, h2⟩ := script_meets_spec ops inputs hperm
+  refine ⟨by simp [messagesOf, h1], ?_⟩
+  have h3 := h2.map (fun m : Msg => (m.key, m.value))
+  have h4 : (expectedOldN (inputsOf ops).length inputs).map (fun m : Msg => (m.key, m.value))
+      = (List.replicate (inputsOf ops).length inputs).flatten := by
+    generalize (inputsOf ops).length = k
+    induction k with
+    | zero => simp [expectedOldN]
+    | succ k ih =>
+      simp only [expectedOldN, List.replicate_succ, List.flatten_cons, List.map_append] at ih ⊢
+      rw [ih]
+      congr 1
+      simp only [expectedOld, List.map_map]
+      exact (List.map_congr_left (fun kv _ => rfl)).trans (List.map_id' inputs)
+  rw [h4] at h3
+  exact h3
+
+/-- `script_render`: in the canonical rendering the harness, the driver and the spec oracle share
+    (flash messages in order, old inputs sorted), what a chain attaches IS what the specification
+    expects — the string the oracle compares the implementation's observation with. -/
+theorem script_render (ops : List Op) (inputs : List (Bytes × Bytes))
+    (hperm : ∀ o ∈ inputsOf ops, o.Perm inputs) :
+    renderSeen (runOps ops) =
+      renderSeen (expectedFlash (callsOf ops) ++ expectedOldN (inputsOf ops).length inputs) := by
+  obtain ⟨h1, h2⟩ := script_meets_spec ops inputs hperm
+  have f1 : (expectedFlash (callsOf ops)).filter (!·.old) = expectedFlash (callsOf ops) :=
+    List.filter_eq_self.2 (fun m hm => by simp [expectedFlash_not_old _ m hm])
+  have f2 : (expectedFlash (callsOf ops)).filter (·.old) = [] :=
+    List.filter_eq_nil_iff.2 (fun m hm => by simp [expectedFlash_not_old _ m hm])
+  have o1 : (expectedOldN (inputsOf ops).length inputs).filter (!·.old) = [] :=
+    List.filter_eq_nil_iff.2 (fun m hm => by simp [expectedOldN_old _ _ m hm])
+  have o2 : (expectedOldN (inputsOf ops).length inputs).filter (·.old) = expectedOldN (inputsOf ops).length inputs :=
+    List.filter_eq_self.2 (fun m hm => expectedOldN_old _ _ m hm)
+  apply renderSeen_congr
+  · rw [h1, List.filter_append, f1, o1, List.append_nil]
+  · rw [List.filter_append, f2, o2, List.nil_append]; exact h2
+
+/-- The driver's script builder (`interleave`) emits exactly the `With` calls of the case line, in
+    order, and one `WithInput()` per listed position with the given map order: the spec oracle's
+    `expectedFlash s.calls` / `expectedOldN k s.inputs` are the right-hand sides of
+    `script_meets_spec` for the chain the model ran. -/
+theorem interleave_faithful (calls : List (Bytes × Bytes × Nat)) (pos : List Nat)
+    (orders : List (List (Bytes × Bytes))) (hlen : orders.length = pos.length) :
+    callsOf (interleave calls pos orders) = calls ∧ inputsOf (interleave calls pos orders) = orders :=
+  ⟨callsOf_interleave calls pos orders 0, inputsOf_interleave calls pos orders 0 hlen⟩
+
+/-- `script_delivered`: issuing side and decoding side composed. Whatever the pooled slice of the
+    next request held, its handler reads through `Messages()` exactly `expectedFlash` of the `With`
+    calls and through `OldInputs()` the input pairs (once per `WithInput()` call), for every chain of
+    builder calls whose strings fit msgpack's 32-bit lengths. -/
+theorem script_delivered (pool : Slice) (ops : List Op) (inputs : List (Bytes × Bytes)) (hp : pool.len = 0)
+    (hperm : ∀ o ∈ inputsOf ops, o.Perm inputs) (hvalid : ∀ op ∈ ops, op.valid)
+    (hn : (runOps ops).length < 4294967296) :
+    let seen := (parseAndClear pool (encode (runOps ops))).messages
+    messagesOf seen = (expectedFlash (callsOf ops)).map (fun m => (m.key, m.value, m.level)) ∧
+    (oldInputsOf seen).Perm (List.replicate (inputsOf ops).length inputs).flatten := by
+  have hv : ∀ m ∈ runOps ops, m.valid := foldl_apply_valid ops [] (by simp) hvalid
+  simp only [decode_encode pool (runOps ops) hp hv hn]
+  exact script_api ops inputs hperm
+
+example : messagesOf (parseAndClear ⟨[⟨b "x", b "y", 1, true⟩], 0⟩ (encode (runOps
+      [.flash (b "a") (b "1") 1, .input [(b "a", b "in")], .flash (b "a") (b "2") 2]))).messages = [(b "a", b "2", 2)] := by decide
 
 end C12
